@@ -37,8 +37,15 @@ Open Scope Z_scope.
 Record opobs := mkOO { o_ret : ret; o_qi : Z; o_qp : Z; o_seen : list goval; o_dump : list dump_entry }.
 
 (* [c_str]: the table's primary key is a string (identified with [scode] of its bytes) *)
+(* [c_cfg2], [c_inst]: a second CachedConn / cache.Cache instance with its own options over the
+   same nodes; the i-th operation is issued on it iff the i-th flag is true ([c_inst] shorter
+   than [c_ops]: the remaining operations go to the first instance) *)
 Record case := mkCase
-  { c_cfg : config; c_str : bool; c_rows : table; c_ops : list op; c_obs : list opobs }.
+  { c_cfg : config; c_cfg2 : config; c_inst : list bool; c_str : bool; c_rows : table;
+    c_ops : list op; c_obs : list opobs }.
+
+Definition pick (c1 c2 : config) (insts : list bool) : config :=
+  match insts with true :: _ => c2 | _ => c1 end.
 
 (* ------------------------------------------------------------------ canonical forms *)
 Definition key_leb (a b : key) : bool :=
@@ -104,26 +111,30 @@ Fixpoint seen_eqb (str : bool) (l : list Z) (gs : list goval) : bool :=
   | _, _ => false
   end.
 
-Fixpoint agrees_from (str : bool) (c : config) (s : state) (ops : list op) (obs : list opobs) : bool :=
+Fixpoint agrees_from (str : bool) (c1 c2 : config) (insts : list bool) (s : state) (ops : list op)
+         (obs : list opobs) : bool :=
   match ops, obs with
   | [], [] => true
   | o :: ops', ob :: obs' =>
+    let c := pick c1 c2 insts in
     let '(s', m) := step c s o in
     ret_eqb (oret m) (o_ret ob) && (oqi m =? o_qi ob) && (oqp m =? o_qp ob)
     && seen_eqb str (seen c s o m) (o_seen ob)
-    && dump_eqb (dump s') (o_dump ob) && agrees_from str c s' ops' obs'
+    && dump_eqb (dump s') (o_dump ob) && agrees_from str c1 c2 (tl insts) s' ops' obs'
   | _, _ => false
   end.
 
 Definition agrees (c : case) : bool :=
-  agrees_from (c_str c) (c_cfg c) (init (c_rows c)) (c_ops c) (c_obs c).
+  agrees_from (c_str c) (c_cfg c) (c_cfg2 c) (c_inst c) (init (c_rows c)) (c_ops c) (c_obs c).
 
-Fixpoint model_trace (c : config) (s : state) (ops : list op) : list (obs * list dump_entry) :=
+Fixpoint model_trace (c1 c2 : config) (insts : list bool) (s : state) (ops : list op)
+  : list (obs * list dump_entry) :=
   match ops with
   | [] => []
-  | o :: ops' => let '(s', m) := step c s o in (m, sort_dump (dump s')) :: model_trace c s' ops'
+  | o :: ops' => let '(s', m) := step (pick c1 c2 insts) s o in
+                 (m, sort_dump (dump s')) :: model_trace c1 c2 (tl insts) s' ops'
   end.
-Definition model_obs (c : case) := model_trace (c_cfg c) (init (c_rows c)) (c_ops c).
+Definition model_obs (c : case) := model_trace (c_cfg c) (c_cfg2 c) (c_inst c) (init (c_rows c)) (c_ops c).
 
 (* ------------------------------------------------------------------ the property *)
 Record rstate := mkR
@@ -398,17 +409,21 @@ Definition next (r : rstate) (o : op) (ob : opobs) : rstate :=
   | _, _ => mkR (r_db r) (r_dbf r) (r_cf r) (o_dump ob) disc ow ms
   end.
 
-Fixpoint check_from (r : rstate) (ops : list op) (obs : list opobs) : bool :=
+End Checks.
+
+(* every operation is judged with the options of the instance it was issued on *)
+Fixpoint check_from (c1 c2 : config) (insts : list bool) (f7 f11 : bool) (r : rstate) (ops : list op)
+         (obs : list opobs) : bool :=
   match ops, obs with
   | [], [] => true
-  | o :: ops', ob :: obs' => check_op r o ob && check_from (next r o ob) ops' obs'
+  | o :: ops', ob :: obs' =>
+    let c := pick c1 c2 insts in
+    check_op c f7 f11 r o ob && check_from c1 c2 (tl insts) f7 f11 (next c r o ob) ops' obs'
   | _, _ => false
   end.
 
-End Checks.
-
 Definition prop_gen (f7 f11 : bool) (c : case) : bool :=
-  check_from (c_cfg c) f7 f11
+  check_from (c_cfg c) (c_cfg2 c) (c_inst c) f7 f11
              (mkR (c_rows c) false [] [] true [] (init (c_rows c))) (c_ops c) (c_obs c).
 
 Definition prop_ok (c : case) : bool := prop_gen false false c.
@@ -420,11 +435,12 @@ Definition classify (c : case) : bool * bool * bool :=
 
 (* diagnostics for replay files: index of the first operation whose check fails and which
    of (A coherent, B served, C db_errors, D fail_fast, E ttls, F invalidated, G kept, H retried) hold there *)
-Fixpoint first_fail (c : config) (r : rstate) (ops : list op) (obs : list opobs) (i : Z)
+Fixpoint first_fail (c1 c2 : config) (insts : list bool) (r : rstate) (ops : list op) (obs : list opobs) (i : Z)
   : option (Z * list bool) :=
   match ops, obs with
   | o :: ops', ob :: obs' =>
-    if check_op c false false r o ob then first_fail c (next c r o ob) ops' obs' (i + 1)
+    let c := pick c1 c2 insts in
+    if check_op c false false r o ob then first_fail c1 c2 (tl insts) (next c r o ob) ops' obs' (i + 1)
     else Some (i, [coherent false r (norm o) ob; served c r (norm o) ob; db_errors r (norm o) ob;
                    fail_fast_mid c r o ob; ttls c false r o ob; invalidated c r o ob;
                    kept r o ob; retried c r o ob])
@@ -432,4 +448,4 @@ Fixpoint first_fail (c : config) (r : rstate) (ops : list op) (obs : list opobs)
   end.
 
 Definition diagnose (c : case) : option (Z * list bool) :=
-  first_fail (c_cfg c) (mkR (c_rows c) false [] [] true [] (init (c_rows c))) (c_ops c) (c_obs c) 0.
+  first_fail (c_cfg c) (c_cfg2 c) (c_inst c) (mkR (c_rows c) false [] [] true [] (init (c_rows c))) (c_ops c) (c_obs c) 0.
